@@ -47,8 +47,10 @@ def _cases(draw, tier):
     ops = ['solve']
     for _ in range(n_ops - 1):
         ops.append(draw(st.sampled_from(['solve', 'results', 'short', 'long', 'debug',
-                                         'results', 'short', 'long', 'debug'])))
+                                         'results', 'short', 'long', 'debug', 'other'])))
+    other = draw(strategies.option_sets(inst, max_crit=2, stab=False if bf else None))
     return {'inst': inst, 'opts': opts, 'bf': bf, 'ops': ops, 'salt': salt, 'mode': mode,
+            'other_opts': other,
             'choices': draw(strategies.choice_lists)}
 
 
@@ -91,6 +93,19 @@ def run_case(case):
     interleaved_repeat = False
     for step, op in enumerate(case['ops']):
         where = 'step %d (%s) of history %r' % (step + 1, op, case['ops'])
+        if op == 'other':
+            # another Solver object on the same file is created, solved and read; the object
+            # under test must not notice
+            try:
+                o2 = solverio.make_solver(strategies.build_argv(case['other_opts'], path,
+                                                                inst['na']))
+                with refbackend.Backend('eb' if case.get('mode') != 'cbc' else 'cbc',
+                                        case['choices'], salt=(case['salt'] + 3 * step) % 60):
+                    o2.solve(msg=False, timeLimit=None, threads=None, write=False)
+                o2.get_results_long()
+            except (Violation, Exception):
+                pass
+            continue
         if op == 'solve':
             epoch += 1
             memo = {}
@@ -148,7 +163,7 @@ def run_case(case):
             memo[op] = txt
         seen_in_epoch.append(op)
     nsolves = case['ops'].count('solve')
-    labels = ['bf' if bf else 'lp', 'mode=' + case.get('mode', 'eb'),
+    labels = ['other_solver_object'] * ('other' in case['ops']) + ['bf' if bf else 'lp', 'mode=' + case.get('mode', 'eb'),
               'solves=%d' % min(nsolves, 4), 'len=%d' % len(case['ops'])]
     labels += [l for l in strategies.instance_labels(inst, opts) if l.startswith('-')]
     return Result(nsolves >= 2 and interleaved_repeat, labels, {'operations': len(case['ops'])})
